@@ -291,6 +291,28 @@ RESTART:
 	}
 }
 
+// isNumericKind reports whether k is one of the integer, unsigned or floating-point kinds.
+func isNumericKind(k reflect.Kind) bool {
+	switch k {
+	case reflect.Int, reflect.Int8, reflect.Int16, reflect.Int32, reflect.Int64,
+		reflect.Uint, reflect.Uint8, reflect.Uint16, reflect.Uint32, reflect.Uint64, reflect.Uintptr,
+		reflect.Float32, reflect.Float64:
+		return true
+	}
+	return false
+}
+
+// isNegative reports whether the numeric value v is below zero.
+func isNegative(v reflect.Value) bool {
+	switch v.Kind() {
+	case reflect.Int, reflect.Int8, reflect.Int16, reflect.Int32, reflect.Int64:
+		return v.Int() < 0
+	case reflect.Float32, reflect.Float64:
+		return v.Float() < 0
+	}
+	return false
+}
+
 func (st *Runtime) executeSetList(set *SetNode) {
 	if set.IndexExprGetLookup {
 		value := st.evalPrimaryExpressionGroup(set.Right[0])
@@ -1782,6 +1804,14 @@ func resolveIndex(v, index reflect.Value, indexAsStr string) (reflect.Value, err
 			return reflect.Value{}, fmt.Errorf("can't use a value of type %s as key for map of type %s: the type is not hashable", indexVal.Type(), v.Type())
 		}
 		index = indexVal.Convert(v.Type().Key()) // noop in most cases, but not expensive
+		if isNumericKind(indexVal.Kind()) && isNumericKind(index.Kind()) {
+			// a number the key type cannot represent (300 for a uint8 key, 1.5 or -1 for an integer or
+			// unsigned key) names no entry of the map: it is an absent key, not the key it wraps or
+			// truncates to
+			if index.Convert(indexVal.Type()).Interface() != indexVal.Interface() || isNegative(index) != isNegative(indexVal) {
+				return reflect.Value{}, nil
+			}
+		}
 		return indirectEface(v.MapIndex(index)), nil
 	case reflect.Ptr:
 		etyp := v.Type().Elem()
